@@ -38,7 +38,8 @@ type corrOpts struct {
 }
 
 var suites = map[string]func(o corrOpts) *res.Summary{
-	"iset": func(o corrOpts) *res.Summary { return corrISet(o.tier, o.seed, o.replay) },
+	"iset":    func(o corrOpts) *res.Summary { return corrISet(o.tier, o.seed, o.replay) },
+	"excerpt": func(o corrOpts) *res.Summary { return corrExcerpt(o.tier, o.seed, o.replay) },
 }
 
 func runCorr(args []string) int {
